@@ -16,7 +16,7 @@ THEOREMS = {
     "SpecKitV.Lemmas.SchedLtf": ["ltfStep_L_bounds", "ltfStep_K", "ltf_walk_fuel", "ltf_walk_nonempty", "walk_entry_is_step"],
     "SpecKitV.Lemmas.SchedNewVec": ["SchedNV.newStep_L_bounds", "SchedNV.newStep_K", "SchedNV.newWalk_bins", "SchedNV.newWalk_fuel",
                                     "SchedNV.vecGridPoint_props", "SchedNV.vecWalk_entry_from_map", "SchedNV.searchLeft_le"],
-    # PENDING "SpecKitV.Props.C02": ["ltfPlan_safe", "lpsdPlan_safe", "newPlan_safe", "vecPlan_safe", "planValidate_ok"],
+    "SpecKitV.Props.C02": ["ltfPlan_safe", "lpsdPlan_safe", "newPlan_safe", "vecPlan_safe", "planValidate_ok", "planValidate_ok_lpsd"],
 }
 CONTRACTS = ["np.round is round-half-even; Python round_half_up(v) = floor(v+1/2) (proved of the model)"]
 ASSUMPTIONS = ["the four schedulers are hand-modelled (Model/Sched.lean) and tied to schedulers.py by the plan correspondence; "
